@@ -23,6 +23,7 @@ site: http://bugseng.com/products/ppl/ . */
 
 #include "ppl-config.h"
 #include "Sparse_Row_defs.hh"
+#include <algorithm>
 #include "Dense_Row_defs.hh"
 
 namespace PPL = Parma_Polyhedra_Library;
@@ -107,8 +108,10 @@ PPL::Sparse_Row::Sparse_Row(const PPL::Dense_Row& row)
 
 PPL::Sparse_Row::Sparse_Row(const Dense_Row& row, dimension_type sz,
                             dimension_type capacity)
-  : tree(Sparse_Row_from_Dense_Row_helper_iterator(row, row.size()),
-         Sparse_Row_from_Dense_Row_helper_function(row, row.size())),
+  : tree(Sparse_Row_from_Dense_Row_helper_iterator(row,
+                                                   std::min(row.size(), sz)),
+         Sparse_Row_from_Dense_Row_helper_function(row,
+                                                   std::min(row.size(), sz))),
     size_(sz) {
   (void)capacity;
   PPL_ASSERT(OK());
